@@ -315,6 +315,146 @@ func (ck *Checker) disciplineObligations() []*Obligation {
 			"lexer fields are accessed only by functions of the lexer goroutine (and its constructor), parser/scope/Prog fields only by the parser goroutine; they communicate through channels only", bad))
 	}
 
+	// ---- C12: variables shared with started goroutines are handed off through a channel ---------------
+	{
+		var bad []string
+		checked := 0
+		for _, f := range p.All {
+			if p.shortPkg(f) != "" || f.Blocks == nil {
+				continue
+			}
+			for _, b := range f.Blocks {
+				for _, ins := range b.Instrs {
+					g, ok := ins.(*ssa.Go)
+					if !ok {
+						continue
+					}
+					mc, ok := g.Common().Value.(*ssa.MakeClosure)
+					if !ok {
+						continue
+					}
+					cl := mc.Fn.(*ssa.Function)
+					for i, fv := range cl.FreeVars {
+						var stores []*ssa.Store
+						if refs := fv.Referrers(); refs != nil {
+							for _, r := range *refs {
+								if sto, ok := r.(*ssa.Store); ok && sto.Addr == fv {
+									stores = append(stores, sto)
+								}
+							}
+						}
+						if len(stores) == 0 {
+							continue
+						}
+						checked++
+						// the goroutine's writes all precede one send; find the channel
+						var sends []*ssa.Send
+						for _, cb := range cl.Blocks {
+							for _, ci := range cb.Instrs {
+								if sd, ok := ci.(*ssa.Send); ok {
+									sends = append(sends, sd)
+								}
+							}
+						}
+						chName := ""
+						for _, sd := range sends {
+							all := true
+							for _, sto := range stores {
+								if !instrBefore(sto, sd) {
+									all = false
+								}
+							}
+							if all {
+								chName = chanVarName(sd.Chan)
+							}
+						}
+						where := p.FuncName(f) + ": variable " + fv.Name() + " written by " + p.FuncName(cl)
+						if chName == "" {
+							bad = append(bad, where+" is not followed by a send on every path")
+							continue
+						}
+						// in the starter: every access after the go statement follows a receive from that channel
+						cell := mc.Bindings[i]
+						if refs := cell.Referrers(); refs != nil {
+							for _, r := range *refs {
+								if r == ssa.Instruction(mc) || r.Block() == nil {
+									continue
+								}
+								if _, isClosure := r.(*ssa.MakeClosure); isClosure {
+									continue
+								}
+								if !instrBefore(g, r) {
+									continue // before the goroutine exists
+								}
+								okRecv := false
+								for _, fb := range f.Blocks {
+									for _, fi := range fb.Instrs {
+										if u, ok := fi.(*ssa.UnOp); ok && u.Op.String() == "<-" && chanVarName(u.X) == chName && instrBefore(u, r) {
+											okRecv = true
+										}
+									}
+								}
+								if !okRecv {
+									bad = append(bad, where+" is accessed at "+p.Pos(instrPos(r))+" without a preceding receive from "+chName)
+								}
+							}
+						}
+					}
+				}
+			}
+		}
+		sort.Strings(bad)
+		out = append(out, effectsObl("discipline/goroutine-results-handed-off-through-a-channel", []string{"C12"}, len(bad) == 0, "api.go",
+			fmt.Sprintf("every variable written by a started goroutine (%d found) is written only before a send of that goroutine, and the starter accesses it only after receiving from that channel", checked), bad))
+	}
+
+	// ---- C07/C20: the lexer's window representation is hidden behind its primitives ---------------------
+	{
+		window := map[string]bool{"(*lexer).next": true, "(*lexer).current": true, "(*lexer).emit": true, "(*lexer).emitError": true, "newLexer": true}
+		cursor := map[string]bool{"(*lexer).next": true, "(*lexer).current": true, "(*lexer).emit": true, "(*lexer).emitError": true,
+			"(*lexer).backup": true, "(*lexer).unbackup": true, "(*lexer).ignore": true}
+		tokens := map[string]bool{"(*lexer).emit": true, "(*lexer).emitError": true, "(*lexer).run": true, "(*lexer).nextToken": true, "newLexer": true}
+		var bad []string
+		for _, f := range p.All {
+			if p.shortPkg(f) != "" || f.Blocks == nil {
+				continue
+			}
+			fn := p.FuncName(f)
+			for _, a := range e.accessesOf(f) {
+				if !strings.HasPrefix(a.class, "H_lexer") {
+					continue
+				}
+				ok := false
+				switch a.class {
+				case "H_lexer_input", "H_lexer_posShift", "H_lexer_inputs", "H_lexer_lpUpd":
+					ok = window[fn]
+				case "H_lexer_pos", "H_lexer_start", "H_lexer_width":
+					ok = cursor[fn]
+				case "H_lexer_tokens":
+					ok = tokens[fn]
+				}
+				if !ok {
+					bad = append(bad, fmt.Sprintf("%s touches %s at %s", fn, a.class, a.pos))
+				}
+			}
+			// the chunk channel is received from only in next()
+			for _, b := range f.Blocks {
+				for _, ins := range b.Instrs {
+					if u, ok := ins.(*ssa.UnOp); ok && u.Op.String() == "<-" && chanVarName(u.X) == "inputs" && fn != "(*lexer).next" {
+						if _, isF := u.X.(*ssa.UnOp); isF {
+							if fa, ok := u.X.(*ssa.UnOp).X.(*ssa.FieldAddr); ok && strings.HasSuffix(fa.X.Type().String(), "lexer") {
+								bad = append(bad, fmt.Sprintf("%s receives from lexer.inputs at %s", fn, p.Pos(instrPos(ins))))
+							}
+						}
+					}
+				}
+			}
+		}
+		sort.Strings(bad)
+		out = append(out, effectsObl("discipline/lexer-window-hidden-behind-primitives", []string{"C07", "C20", "C11"}, len(bad) == 0, "lex.go",
+			"the window representation (input, posShift, inputs, lpUpd) is accessed only by next/current/emit/emitError (and the constructor), the cursor (start, pos, width) only by those and backup/unbackup/ignore; every state function reads the source only through next(), whose contract is independent of chunk boundaries", bad))
+	}
+
 	// ---- C16: determinism discipline ------------------------------------------------------------------
 	{
 		api := []*ssa.Function{}
@@ -690,4 +830,23 @@ func (e *Effects) collectsKeysForSorting(p *Program, f *ssa.Function, rng *ssa.R
 		}
 	}
 	return false
+}
+
+// instrBefore: a executes before b on every path reaching b (same block and earlier, or a's block strictly dominates b's).
+func instrBefore(a, b ssa.Instruction) bool {
+	if a.Block() == nil || b.Block() == nil || a.Parent() != b.Parent() {
+		return false
+	}
+	if a.Block() == b.Block() {
+		for _, i := range a.Block().Instrs {
+			if i == a {
+				return true
+			}
+			if i == b {
+				return false
+			}
+		}
+		return false
+	}
+	return a.Block().Dominates(b.Block())
 }
